@@ -373,3 +373,10 @@ pub fn aot_gate(cell: usize, is_const: bool, ready: bool) -> u64 {
         _ => 1,
     }
 }
+
+/// Reach probe: reports that a rarely taken path was hit (never alters behaviour).
+pub fn note(kind: &str, a: i64, b: i64) {
+    if active() {
+        let _ = gate(kind, Path::new(""), a as u64, b as u64);
+    }
+}
